@@ -67,7 +67,7 @@ pub fn run(pid: &'static str, thorough: bool) -> i32 {
             rep.set("evaluations", json!(st.calls));
             rep.set("distinct_nontrivial", json!(st.nontrivial));
             rep.set("exhaustive", json!(true));
-            rep.set("rule", json!("every well-formed registry with n entries where each entry takes every shape of the definition alphabet x parameter-list alphabet with every reference in 0..n, x all 2^n filter sets x 3 predicate kinds (pure, consuming = accepts an id once and never again, budget = accepts the first k ids offered); entries without payload (bare bool = the shape of retain's internal placeholder, bare u8) are part of the alphabet; a state is a registry, a transition one retain call; non-trivial = filter keeps a proper non-empty subset; oracle = independent reachability BFS + bijection + substitution equality + C01 predicate"));
+            rep.set("rule", json!("every well-formed registry with n entries where each entry takes every shape of the definition alphabet x parameter-list alphabet with every reference in 0..n, x all 2^n filter sets x 3 predicate kinds on plans of up to 2M registries, pure predicates only on the larger ones (pure, consuming = accepts an id once and never again, budget = accepts the first k ids offered); entries without payload (bare bool = the shape of retain's internal placeholder, bare u8) are part of the alphabet; a state is a registry, a transition one retain call; non-trivial = filter keeps a proper non-empty subset; oracle = independent reachability BFS + bijection + substitution equality + C01 predicate"));
         }
         _ => {
             // U1 histories through stateright
